@@ -230,6 +230,7 @@ namespace rkcommon {
                                      node.name + "...'>, but ended with '</" +
                                      nodeName + ">");
           }
+          skipWhites(s);  // "</name >" is a valid end tag
           consume(s, ">");
           break;
           // either end of current node
